@@ -3,6 +3,7 @@ package zap
 import (
 	"fmt"
 
+	index "github.com/blevesearch/bleve_index_api"
 	segment "github.com/blevesearch/scorch_segment_api/v2"
 )
 
@@ -62,14 +63,26 @@ func H03_dv() {
 		order[i] = vChoice(fmt.Sprint("visit", i), nDocs)
 	}
 	st := sCheckDocValuesState(seg, sp, order, "", true, nil)
-	if vParam("secondSeg", 1) == 1 && vBool("secondSeg") {
+	if vParam("secondSeg", 1) >= 1 && (vParam("secondSeg", 1) == 2 || vBool("secondSeg")) {
 		// the same visit state is carried over to another segment (same field list)
-		docs2, sp2 := vGenBatchFixed(gCfg{prefix: "s", idBase: "s", nDocs: 2, wide: -1,
+		cfg2 := gCfg{prefix: "s", idBase: "s", nDocs: 2, wide: -1,
 			fields: []gField{
 				{name: "f", terms: []string{"q"}, dv: true, fixFreq: true},
 				{name: "g", terms: []string{"r"}, dv: true, fixFreq: true},
 				{name: "n", terms: []string{"c"}, fixFreq: true},
-			}})
+			}}
+		var docs2 []index.Document
+		var sp2 *sSpec
+		if vParam("seg2sym", 0) == 1 {
+			// ... in which any of the fields may be missing, so that field ids differ between the segments
+			for i := range cfg2.fields {
+				cfg2.fields[i].allTerm = true
+			}
+			cfg2.fields[2].always = true
+			docs2, sp2 = vGenBatch(cfg2)
+		} else {
+			docs2, sp2 = vGenBatchFixed(cfg2)
+		}
 		seg2, _, err := z.newWithChunkMode(docs2, DefaultChunkMode)
 		vAssert(err == nil, "build2")
 		_ = sCheckDocValuesState(seg2, sp2, []int{1, 0}, "second-", true, st)
